@@ -40,6 +40,9 @@ def unit_probe(rng, acc):
     for a in assets:
         r = rng.random()
         entries[a] = None if r < 0.15 else base + pd.Timedelta(days=rng.randint(-30, 30), minutes=rng.choice([0, 0, 1, 870, 1260]))
+    if rng.random() < 0.15:
+        # "not listed yet" placeholders far in the future (pandas keeps such instants at a coarser resolution)
+        entries[rng.choice(assets)] = pd.Timestamp(rng.choice(['2999-01-01', '2300-06-30 14:30', '9000-12-31']), tz='UTC')
     uni = DynamicUniverse(dict(entries))
     probes = [base - pd.Timedelta(days=4000), base + pd.Timedelta(days=4000)]
     for e in entries.values():
@@ -57,6 +60,18 @@ def unit_probe(rng, acc):
             raise core.Violation(PROP, 'universe/%s' % key, 'DynamicUniverse.get_assets(%s) = %s, entry map says %s (entries %s)'
                                  % (t, got, want, {k: str(v) for k, v in entries.items()}), {})
         acc.count('C19:universe_probes')
+    # one alpha-model object asked at several instants - also twice on one calendar day, before and after an entry
+    from qstrader.alpha_model.single_signal import SingleSignalAlphaModel
+    sig_w = rng.choice([1.0, 0.5, -1.0])
+    model = SingleSignalAlphaModel(uni, signal=sig_w)
+    order = sorted(probes) if rng.random() < 0.7 else list(probes)
+    for t in order:
+        got_w = model(t)
+        want = {a: sig_w for a in assets if entries[a] is not None and entries[a] <= t}
+        if dict(got_w) != want:
+            raise core.Violation(PROP, 'single-signal-model/members', 'SingleSignalAlphaModel at %s weights %s, the universe holds %s '
+                                 '(entries %s)' % (t, sorted(got_w), sorted(want), {k: str(v) for k, v in entries.items()}), {})
+        acc.count('C19:alpha_model_probes')
     st = StaticUniverse(list(assets))
     for t in probes[:3]:
         if list(st.get_assets(t)) != assets:
